@@ -79,17 +79,8 @@ package nsqd
 //@ ghost reqID MessageID
 //@ ghost reqTimeout int
 //@ ghost reqErr error
-//@ func (c *Channel) RequeueMessage(clientID int64, id MessageID, timeout time.Duration) error
-//@   trusted
-//@   props C02
-//@   requires c != nil
-//@   modifies c.inFlightMessages, c.inFlightPQ, mapstore(map[MessageID]*Message), elems(*Message), Message.index, deref(inFlightPqueue), Channel.requeueCount, Channel.messageCount, c.deferredMessages, c.deferredPQ
-//@   onreturn reqCalls := reqCalls + 1
-//@   onreturn reqChan := c
-//@   onreturn reqClient := clientID
-//@   onreturn reqID := id
-//@   onreturn reqTimeout := timeout
-//@   onreturn reqErr := result
+// (*Channel).RequeueMessage: verified contract in zz_contracts_kchannel_verif.go (it carries the onreturn
+// lines of the former trusted stub: reqCalls, reqChan, reqClient, reqID, reqTimeout, reqErr).
 
 //@ ghost touchCalls int
 //@ ghost touchChan *Channel
@@ -101,7 +92,7 @@ package nsqd
 // A connection in state subscribed or closing has its channel (SUB stores both before it returns;
 // commands of one connection are executed one after the other by IOLoop).
 //@ pred consuming(client *clientV2) := client.State == stateSubscribed || client.State == stateClosing
-//@ pred hasChannel(client *clientV2) := consuming(client) ==> client.Channel != nil && client.Channel.nsqd != nil
+//@ pred hasChannel(client *clientV2) := consuming(client) ==> client.Channel != nil && client.Channel.nsqd != nil && client.Channel.backend != nil
 
 // ---- FIN ------------------------------------------------------------------------------------
 //@ func (p *protocolV2) FIN(client *clientV2, params [][]byte) ([]byte, error)
@@ -119,7 +110,7 @@ package nsqd
 //@   ensures[channel-accepted] finCalls == old(finCalls) + 1 && finErr == nil ==> result1 == nil && client.FinishCount == wrapU64(old(client.FinishCount) + 1) && client.InFlightCount == wrapI64(old(client.InFlightCount) - 1)
 //@   ensures[failed-counters-untouched] result1 != nil ==> client.FinishCount == old(client.FinishCount) && client.InFlightCount == old(client.InFlightCount)
 //@   ensures[errors] result1 != nil ==> fatalErr(result1, "E_INVALID") || clientErr(result1, "E_FIN_FAILED")
-//@   modifies client.FinishCount, client.InFlightCount, Channel.inFlightMessages, Channel.inFlightPQ, mapstore(map[MessageID]*Message), elems(*Message), Message.index, deref(inFlightPqueue), finCalls, finChan, finClient, finID, finErr, lastPopped
+//@   modifies client.FinishCount, client.InFlightCount, Channel.inFlightMessages, Channel.inFlightPQ, mapstore(map[MessageID]*Message), elems(*Message), Message.index, deref(inFlightPqueue), finCalls, finChan, finClient, finID, finErr, lastPopped, kHeapRemoves
 
 // ---- REQ ------------------------------------------------------------------------------------
 // reqMs(params): the number of milliseconds written in the command; the delay handed to the channel must
@@ -146,7 +137,10 @@ package nsqd
 // [delay] is stated last: the engine assumes earlier clauses while proving later ones, and this one
 // FAILS on the current code (genuine defect, see NOTES: the multiplication by 1ms wraps before the clamp).
 //@   ensures[delay; uses dec_ext] reqCalls != old(reqCalls) && curOpts(p.nsqd).MaxReqTimeout >= 0 ==> reqTimeout == min(decOf(params[2]) * 1000000, curOpts(p.nsqd).MaxReqTimeout)
-//@   modifies client.RequeueCount, client.InFlightCount, Channel.inFlightMessages, Channel.inFlightPQ, mapstore(map[MessageID]*Message), elems(*Message), Message.index, deref(inFlightPqueue), Channel.requeueCount, Channel.messageCount, Channel.deferredMessages, Channel.deferredPQ, reqCalls, reqChan, reqClient, reqID, reqTimeout, reqErr
+//@   modifies client.RequeueCount, client.InFlightCount, Channel.inFlightMessages, Channel.inFlightPQ, mapstore(map[MessageID]*Message), elems(*Message), Message.index, deref(inFlightPqueue), Channel.requeueCount, Channel.messageCount, Channel.deferredMessages, Channel.deferredPQ, reqCalls, reqChan, reqClient, reqID, reqTimeout, reqErr,
+//        (area K: the frame of the verified RequeueMessage contract - deferred map/heap stores and the ghosts of put / deferred push / clock)
+//@        mapstore(map[MessageID]*pqueue.Item), elems(*pqueue.Item), pqueue.Item.Index, lastPopped, kHeapRemoves, chanPuts, chanPutOK, lastChanPutMsg,
+//@        backendWrites, lastWriteMsg, lastWriteQueue, lastWriteErr, healthSets, lastHealthErr, lastHealthNSQD, deferredPushes, lastNow, chanstore(*Message)
 
 // ---- TOUCH ----------------------------------------------------------------------------------
 //@ func (p *protocolV2) TOUCH(client *clientV2, params [][]byte) ([]byte, error)
@@ -164,7 +158,7 @@ package nsqd
 //@   ensures[channel-refused] touchCalls == old(touchCalls) + 1 && touchErr != nil ==> clientErr(result1, "E_TOUCH_FAILED")
 //@   ensures[channel-accepted] touchCalls == old(touchCalls) + 1 && touchErr == nil ==> result1 == nil
 //@   ensures[errors] result1 != nil ==> fatalErr(result1, "E_INVALID") || clientErr(result1, "E_TOUCH_FAILED")
-//@   modifies Channel.inFlightMessages, Channel.inFlightPQ, mapstore(map[MessageID]*Message), elems(*Message), Message.index, Message.pri, deref(inFlightPqueue), lastNow, lastPopped, lastPushed, touchCalls, touchChan, touchClient, touchID, touchTimeout, touchErr
+//@   modifies Channel.inFlightMessages, Channel.inFlightPQ, mapstore(map[MessageID]*Message), elems(*Message), Message.index, Message.pri, deref(inFlightPqueue), lastNow, lastPopped, lastPushed, kHeapRemoves, touchCalls, touchChan, touchClient, touchID, touchTimeout, touchErr
 
 // ---- CLS / NOP ------------------------------------------------------------------------------
 //@ func (p *protocolV2) CLS(client *clientV2, params [][]byte) ([]byte, error)
